@@ -275,11 +275,53 @@ fn main() {
     sink.merge(sd);
     sink.sample(8, || json!({"func":"parse_tls_plaintext","input":"1803030005010009010 2".replace(' ', ""),"note":"payload sweep: complete record, inner length lies"}));
 
+    // (E) "all trailing bytes": records inside buffers whose total size crosses the 16-bit, 17-bit and
+    //     20-bit boundaries (a length computed in a narrower integer type shows only here)
+    let big_lens: Vec<usize> = vec![0, 1, 5, 100, 255, 256, 16384, 16640];
+    let mut big_items: Vec<(u8, usize, usize)> = Vec::new();
+    for &ty in &[0x16u8, 0x17, 0x14, 0xff] {
+        for &len in &big_lens {
+            let mut totals: Vec<usize> = Vec::new();
+            for base in [1usize << 16, 1 << 17, 1 << 20] {
+                for d in [-6i64, -5, -4, -1, 0, 1, 4, 5, 6] {
+                    totals.push((base as i64 + d) as usize);
+                    totals.push((base as i64 + d) as usize + len);
+                    totals.push((base as i64 + d) as usize + len + 5);
+                }
+            }
+            totals.push(70000);
+            totals.push(65535 + 5 + len);
+            totals.sort();
+            totals.dedup();
+            for t in totals {
+                if t >= 5 + len && (thorough || t < (1 << 20) - 10 || len <= 100) {
+                    big_items.push((ty, len, t));
+                }
+            }
+        }
+    }
+    let se = par_run(run.threads, big_items.len(), |i, sink| {
+        let (ty, len, total) = big_items[i];
+        let mut buf = vec![ty, 0x03, 0x03, (len >> 8) as u8, len as u8];
+        payload_for(ty, len, &mut buf);
+        buf.resize(total, 0xee);
+        for t in [&PLAINTEXT, &ENCRYPTED, &RAW_RECORD] {
+            one(t, &buf, sink);
+        }
+        // and the same buffer cut inside the record
+        if len > 0 {
+            for t in [&PLAINTEXT, &ENCRYPTED, &RAW_RECORD] {
+                one(t, &buf[..5 + len - 1], sink);
+            }
+        }
+    });
+    sink.merge(se);
+
     require_both_outcomes(&run, &sink, &["parse_tls_plaintext", "parse_tls_encrypted", "parse_tls_raw_record"]);
     let mut cov = Map::new();
     cov.insert("exhaustive".into(), json!(true));
     cov.insert("rule".into(), json!(format!(
-        "(A) all 256 content types x all 65536 declared lengths (quick tier: 12 types with all lengths, the other 244 types with ~800 boundary lengths) at cut points {{0..6, 5+len/2, 5+len-1, 5+len, 5+len+1, 5+len+7}} for parse_tls_encrypted / parse_tls_raw_record; the same for parse_tls_plaintext on 8 content types (complete records only at 76 boundary lengths); (B) every prefix of records of the boundary lengths (middle of long records every 97th byte in quick); (C) all 65536 versions; (D) complete records whose payload is every string of length <= {} over a per-type positional alphabet. Oracle: reference framing (Incomplete iff strict prefix with exact Needed, TooLarge above 2^14+256, exact consumption, header fields, payload and remainder by position) plus the strict record walker. Non-trivial: everything but inputs cut inside the 5-byte header", maxn)));
+        "(A) all 256 content types x all 65536 declared lengths (quick tier: 12 types with all lengths, the other 244 types with ~800 boundary lengths) at cut points {{0..6, 5+len/2, 5+len-1, 5+len, 5+len+1, 5+len+7}} for parse_tls_encrypted / parse_tls_raw_record; the same for parse_tls_plaintext on 8 content types (complete records only at 76 boundary lengths); (B) every prefix of records of the boundary lengths (middle of long records every 97th byte in quick); (C) all 65536 versions; (D) complete records whose payload is every string of length <= {} over a per-type positional alphabet; (E) records of 8 lengths x 4 types followed by trailing data such that the buffer size crosses 2^16, 2^17 and 2^20 (+-6 bytes, with and without the record length). Oracle: reference framing (Incomplete iff strict prefix with exact Needed, TooLarge above 2^14+256, exact consumption, header fields, payload and remainder by position) plus the strict record walker. Non-trivial: everything but inputs cut inside the 5-byte header", maxn)));
     let code = run.finish(
         &sink,
         cov,
